@@ -45,7 +45,16 @@ INFO = {
  "C09-b-zero-mask-all-ones": ("BDT mask `or 0xFFFFFFFF`: a /0 mask goes out as all ones", "a distribution table entry with mask 0.0.0.0", "caught as built"),
  "C16-a-burst-freezes-baseline": ("DetectionMonitor.property_change returns before updating the algorithm's copy when already triggered", "analog object, two writes in one instant, then a write whose verdict differs between true and stale baseline", "caught as built"),
  "C16-b-indefinite-renewal-keeps-old-timer": ("renew_subscription no longer suspends the expiry task before re-arming", "finite subscription renewed as indefinite, clock passes the original expiry", "caught as built"),
+ "C06-a-stale-snet-after-renumber": ("outgoing adapter chosen through RouterInfo.snet, which update_source_network never re-keys", "station bound without a network number learns a route, then receives Network-Number-Is, then sends to that network", "not caught by C06 (its stations never learn their number after a route); caught by C19, whose wire part sends exactly this frame order and probes with application traffic (`probe:raises-KeyError`)"),
+ "C06-b-iam-router-relay-only-new": ("a router relays only I-Am-Router-To-Network entries new to its cache", "two routers on the path and a routed frame from the destination network crossing the first router while discovery is under way", "caught as built (delivery-order deviations)"),
+ "C15-a-falsy-command-stored-as-null": ("_Commando.WriteProperty tests `not value`: a commanded 0 / empty value is stored as Null", "commandable object, falsy value, another slot active or priorityArray read back", "not caught by C15 (commandable objects are left to C17 there); caught by C17 (`slots:command-without-priority-not-at-16`, value 0.0 is in its alphabet)"),
+ "C15-b-rpm-selectors-skip-computed": ("RPM selector expansion skips properties whose stored value is None (computed properties)", "selector RPM to an object with a computed property (device object)", "caught as built"),
+ "C20-a-last-day-wrong-century-february": ("last-day-of-month helper called with a doubly offset year in match_date", "the 'last day' pattern in February 2000 / 2100", "caught as built (2000 and 2100 are among the quick tier's seven years)"),
+ "C20-b-exception-only-sleeps": ("eval() returns 24:00 as next transition for schedules without weekly schedule", "exception-only schedule with an exception entry still to come that day", "caught as built (next-transition soundness)"),
 }
+
+# seeded changes whose own property's check is silent but a sibling property's check decides them
+DETECTED_BY = {"C06-a-stale-snet-after-renumber": "C19", "C15-a-falsy-command-stored-as-null": "C17"}
 
 
 def main():
@@ -61,8 +70,9 @@ def main():
         meta.update({"what": what, "needs_to_manifest": needs, "history": story})
         if rerun or "check_result" not in meta:
             q = seedrun.qualify(d)
-            r = seedrun.check(d, "quick")
-            p = meta["property"]
+            p = DETECTED_BY.get(name, meta["property"])
+            r = seedrun.check(d, "quick", [p])
+            meta["checked_with_property"] = p
             meta["qualification"] = {k: q[k] for k in ("qualified", "suite_green_with_change", "demo_passes_with_change", "demo_passes_without_change")}
             meta["check_result"] = {"command": "./check %s --tier quick (against a scratch copy of /repo with patch.diff applied)" % p,
                                     "exit": r[p]["exit"], "violations": r[p]["violations"], "first_violation": r[p]["first"][:400]}
@@ -72,7 +82,8 @@ def main():
         sig = ""
         if "signature=" in cr["first_violation"]:
             sig = cr["first_violation"].split("signature=")[1].split(" count=")[0][:90]
-        rows.append("| %s | %s | %s | %s | %s |" % (name, what, needs, "exit %d, `%s`" % (cr["exit"], sig) if cr["exit"] == 1 else "**not caught** (exit %d)" % cr["exit"], story))
+        by = meta.get("checked_with_property", meta["property"])
+        rows.append("| %s | %s | %s | %s | %s |" % (name, what, needs, "%s: exit %d, `%s`" % (by, cr["exit"], sig) if cr["exit"] == 1 else "**not caught** (exit %d)" % cr["exit"], story))
     print("| seeded change | what was changed | what it needs to manifest | quick check of its property | history |")
     print("|---|---|---|---|---|")
     print("\n".join(rows))
